@@ -70,6 +70,9 @@ def run(ctx):
         report_violation(ctx, v)
     if res["carry_one"] == 0 or res["carry_zero"] == 0 or res["power_of_two_divisor"] == 0:
         raise ToolError("vacuity: a branch of the algorithm (carry 0 / carry 1 / mask) was never driven")
+    st = res["stats"]
+    if not st.get("batch_partitioner_reuse_batches") or not st.get("partition_indices_rows") or not st.get("batch_partitioner_rows"):
+        raise ToolError("vacuity: a production path (partition_indices / BatchPartitioner / reused BatchPartitioner) was never driven")
     sens = res["inputs_that_would_expose_a_transcribed_mutant"]
     if min(sens.values()) == 0:
         raise ToolError(f"the 64-bit input set would not expose one of the transcribed mutants: {sens}")
@@ -91,6 +94,7 @@ def run(ctx):
     }, assumptions=[
         "TLC's integers are 32-bit: the algorithm schema is exhausted at W <= 8 (quick) / 10 (thorough); the 64-bit code is sampled against `%` (structured boundaries + seeded random), not proved",
         "verif_strength_reduced_remainder re-states `value - quotient * divisor` with wrapping arithmetic around the real `new` and `quotient`; the production subtraction/indexing is driven through verif_partition_indices and BatchPartitioner::partition_iter (a panic there is reported as a violation)",
+        "a BatchPartitioner is also reused over six consecutive batches of different sizes (one of them empty), alternating partition_iter and the callback API partition: state carried between batches (index vectors, hash buffer) must be reset",
         "the row hash is taken from create_hashes(keys, REPARTITION_RANDOM_STATE): the property is about the index given the hash",
         "binding self-test: the harness also evaluates five transcribed mutants (reciprocal -1/+1, dropped carry, low-only carry, mask = d) on every generated input and requires each to be exposed by at least one input",
     ])
